@@ -216,7 +216,7 @@ func (cc *c04checker) checkContent(content string, templates []string, asName bo
 			if msg := compareSkeleton(base.toks, test.toks, plain, spelled, want, esc, dialect == "std"); msg != "" {
 				sql, _ := pql.Compile(src)
 				res.violate(Violation{Property: "C04", Kind: "content_is_syntax", InputB64: b64(src),
-					Extra:    map[string]any{"dialect": dialect, "template": tmpl, "content": content, "as_name": asName, "case": extra},
+					Extra:    map[string]any{"dialect": dialect, "template": tmpl, "content": content, "content_b64": b64(content), "as_name": asName, "case": extra},
 					Observed: sql, Reason: "under the " + dialect + " lexical rules " + msg})
 				break
 			}
